@@ -1,4 +1,4 @@
-\* block level: one contract, one slot, values {0,1}, one class, 3 transactions (one L1 handler), <= 3 blocks, <= 2 diff entries, <= 2 txs
+\* block level: one contract, one slot, values {0,1}, one class, 2 transactions (one L1 handler), <= 3 blocks, <= 2 diff entries, <= 1 tx
 \* measured: 26 842 distinct states, ~15 s on 4 workers
 CONSTANTS
   Users = {"c1"}
@@ -7,16 +7,18 @@ CONSTANTS
   MaxV = 1
   Cairo0 = {"k0"}
   Sierra = {}
-  TxIds = {"t1", "t2", "l1a"}
+  TxIds = {"t1", "l1a"}
   L1Txs = {"l1a"}
   MaxBlocks = 3
   MaxOps = 2
-  MaxTxs = 2
+  MaxTxs = 1
   Vers = {0}
   FixH4 = TRUE
   SysZeroWrites = FALSE
+  FilterReorgInBatch = TRUE
 INIT RInit
 NEXT RNext
 VIEW rview
-INVARIANTS TypeOK RevertNeverFails ReadsAgree HeadAgrees NoOrphanLogs Canon IdxCanon IdxSound
+INVARIANTS TypeOK RevertNeverFails ReadsAgree HeadAgrees NoOrphanLogs Canon IdxCanon IdxSound FilterCoversChain
+PROPERTIES RRestartIsNoOp
 CHECK_DEADLOCK FALSE
